@@ -80,8 +80,8 @@ def cp_touch(tj, steps):
 class Prop:
     ID = "C13"
     LEVEL = "proof"
-    COQ_HEADER = ""
-    CHECK_FN = ""
+    COQ_HEADER = "From TN Require Import Harness.H_C13.\nFrom Coq Require Import QArith.\nOpen Scope Q_scope.\n"
+    CHECK_FN = "check"
     RULE = ("enumerated format lattice ({TT,CP}x{U,no U} per mode) for N=2,3 with every mu in -N..N-1; seeded random "
             "formats for N=4,5; mode sizes 1..4, bond ranks 1..5 (above and below the mode sizes), Tucker factors "
             "taller, square and wider than their core; zero and rank-deficient tensors; single-core "
@@ -323,7 +323,42 @@ class Prop:
         return "%s;%s;%s;%s" % (tsig(tj), tshape(tj), ranks, json.dumps(case["steps"]))
 
     def coq_term(self, case, res):
-        return None
+        """oracle replay: histories made of one orthogonalize(mu) on small tensors; torch.linalg.qr is intercepted, its
+        arguments and answers are recorded and handed to the Coq model together with the implementation's final tensor"""
+        from fractions import Fraction
+        if not res.get("ok") or len(case["steps"]) != 1 or case["steps"][0][0] != "orth":
+            return None
+        tj = case["t"]; N = len(tj["modes"])
+        if N > 3 or max(max(np.array(m["core"]).shape) for m in tj["modes"]) > 3:
+            return None
+        mu = int(case["steps"][0][1]) % N
+        t = to_tn(tj); recs = []
+        orig = torch.linalg.qr
+        def wrap(A, *a, **k):
+            Q, R = orig(A, *a, **k)
+            recs.append((A.detach().clone(), Q.detach().clone(), R.detach().clone()))
+            return Q, R
+        torch.linalg.qr = wrap
+        try:
+            t.orthogonalize(int(case["steps"][0][1]))
+        except Exception:
+            return None
+        finally:
+            torch.linalg.qr = orig
+        D = 2 ** 30
+        ql = lambda x: "(%d#%d)" % (round(float(x) * D), D)
+        def a2(M):
+            return "(mkA2 %d %d %s)" % (M.shape[0], M.shape[1], coq_list(M.reshape(-1).tolist(), ql, "Q"))
+        # each recorded contract is also validated numerically (orthonormal columns, exact factorisation)
+        for A, Q, R in recs:
+            if float((Q @ R - A).abs().max()) > 1e-9 * max(1.0, float(A.abs().max())) or \
+                    float((Q.T @ Q - torch.eye(Q.shape[1], dtype=Q.dtype)).abs().max()) > 1e-9:
+                return "mkCase [] 0%nat [] [] []"        # contract violated: force a disagreement
+        ans = "[" + "; ".join("mkAns %d %s %s %s" % (Q.shape[1], a2(Q), a2(R), a2(A)) for A, Q, R in recs) + "]"
+        d = t.torch().detach().double()
+        lit = lambda x: qlit(Fraction(x))
+        return "mkCase %s %d%%nat %s %s %s" % (coq_tensor(tj, lit, "Q"), mu, ans, coq_natlist(list(d.shape)),
+                                              coq_list(d.reshape(-1).tolist(), ql, "Q"))
 
     def shrink(self, case, fails):
         """drop leading steps / trailing steps while the case still fails"""
